@@ -114,7 +114,7 @@ theorem readSub_at {showNat parseNat} (h : NatFmt showNat parseNat) (subs : List
   | ann a off =>
     cases off with
     | none =>
-      simp only [Sub.kind, Out.bind, getOrLastP_at _ _ _ (g cellAnnotation), cellAnnotation, g (cellBegin showNat), cellBegin]
+      simp only [Sub.kind, Out.bind, getOrLastP_at _ _ _ (g cellAnnotation), cellAnnotation, g (cellBegin showNat), g (cellEnd showNat), cellBegin, cellEnd]
       simp [List.isEmpty_iff, hs.1]
     | some p =>
       obtain ⟨b, e⟩ := p
@@ -282,7 +282,7 @@ theorem readSub_nopanic (parseNat : S → Option Nat) (kinds : List Kind) (res a
           have h1 := parseCursor_nopanic parseNat b
           have h2 := parseCursor_nopanic parseNat e
           cases hc1 : cursorOf parseNat b <;> cases hc2 : cursorOf parseNat e <;> simp_all [cursorOf, NoPanic]
-      · simp [NoPanic]
+      · split <;> simp [NoPanic]
   | res =>
     refine bind_nopanic _ _ (getOrLastP_nopanic _ _ hr) ?_
     intro r _; split <;> simp [NoPanic]
@@ -334,7 +334,7 @@ theorem readTarget_never_panics (parseNat : S → Option Nat) (row : Row) : NoPa
             | (refine bind_nopanic _ _ (parseCursor_nopanic _ _) ?_; intro b _; exact bind_nopanic _ _ (parseCursor_nopanic _ _) (by intro e _; simp [NoPanic]))
             | (split
                · refine bind_nopanic _ _ (parseCursor_nopanic _ _) ?_; intro b _; exact bind_nopanic _ _ (parseCursor_nopanic _ _) (by intro e _; simp [NoPanic])
-               · simp [NoPanic])
+               · split <;> simp [NoPanic])
       · rename_i hc
         refine bind_nopanic _ _ (readSubs_nopanic parseNat _ _ _ _ _ _ _ _ (by simp) (splitSemi_ne_nil _) (splitSemi_ne_nil _) (splitSemi_ne_nil _) _ _) ?_
         intro subs _
